@@ -221,26 +221,23 @@ Proof.
     + subst es. exfalso. exact (tp_loop_early _ _ _ _ _ _ _ L eq_refl).
 Qed.
 
-Lemma default_mc_derefs m :
-  match mc_collector (default_mc m) with
-  | Some col => match c_kind col with
-                | CFile | CTfEvent => match mc_source (default_mc m) with Some s => present (s_fs s) | None => false end
-                | _ => true
-                end
-  | None => false
-  end = true.
+Lemma mc_errs_derefs en e : mc_errs en e = Ok [] -> derefs_mc e = true.
 Proof.
-  unfold default_mc. destruct m as [[so co]|]; cbn [mc_collector mc_source].
-  - destruct co as [[k cu]|]; cbn [c_kind]; [|reflexivity].
-    destruct k; cbn; try reflexivity.
-  - reflexivity.
+  unfold mc_errs, derefs_mc.
+  destruct (e_mc e) as [mc|]; [|discriminate].
+  destruct (mc_collector mc) as [col|]; [|discriminate].
+  destruct (c_kind col); try reflexivity.
+  - destruct (mc_source mc) as [s|]; [|discriminate]. destruct (s_fs s); [reflexivity|discriminate].
+  - destruct (mc_source mc) as [s|]; [|discriminate]. destruct (s_fs s); [reflexivity|discriminate].
+  - intros [= H]. split_nil H.
+    match goal with X : when (negb (c_custom col)) _ = [] |- _ => apply when_E_nil in X; now apply negb_false_iff in X end.
 Qed.
 
 Lemma admitted_derefs en e0 : admitted en e0 -> derefs_ok (set_default e0) = true.
 Proof.
   unfold admitted, validate. intro A. pose proof (admitted_budget en e0 A) as B.
-  apply validate_gen_nil in A. destruct A as (_ & _ & O & Al & _ & _ & T & _ & _).
-  apply objective_errs_nil in O. apply algorithm_errs_nil in Al.
+  apply validate_gen_nil in A. destruct A as (_ & _ & O & Al & _ & _ & T & _ & MC).
+  apply objective_errs_nil in O. apply algorithm_errs_nil in Al. apply mc_errs_derefs in MC.
   apply template_errs_nil in T. destruct T as (t & ps & tpl & Et & Ep & _ & _ & _ & Src & _).
   unfold derefs_ok. rewrite O, Al, Et, Ep.
   replace (present (e_par (set_default e0))) with true
@@ -248,7 +245,7 @@ Proof.
   cbn [present andb].
   replace (present (t_spec t) || present (t_cm t))%bool with true
     by (destruct Src as [[-> _]|[_ ->]]; [reflexivity|now rewrite orb_true_r]).
-  cbn [andb]. unfold set_default; cbn [e_mc]. apply default_mc_derefs.
+  cbn [andb]. exact MC.
 Qed.
 
 (* ------------------------------------------------------------------ names *)
